@@ -14,7 +14,7 @@ LEVEL = "exploration"
 
 RULE = ("all 62 type expressions of list depth 0..4 (every placement of `!`) x named type kind {Int, Float, String, Boolean, ID, "
         "custom scalar, enum, object, interface, union | input object} x position {response field, variable, input-object "
-        "field (with schema-level default values), variable of a second operation that re-declares every name with another expression, @oneOf member (nullable expressions only), object field whose interface declares "
+        "field (with schema-level default values), variable of a second operation that re-declares every name with another expression, response field selected under @include / @skip, @oneOf member (nullable expressions only), object field whose interface declares "
         "it without any `!` (selected on the object, on the interface, and on the object inside a variant)} x schema format {SDL, SDL that "
         "declares the built-in scalars, introspection JSON bare and data-wrapped with all built-in and meta types}; every emitted field / "
         "variant type is compared with rule(expr): `T!` -> inner, `[T]` -> Vec<..>, nullable -> Option<..>; built-in scalar "
@@ -136,7 +136,11 @@ def build_doc(s, exprs):
     for it in sel:
         isel.append(["field", "g" + it[2][1:], it[2], None, it[4]])
     isel.append(["inline", "Holder", [["field", "h" + it[2][1:], it[2], None, it[4]] for it in sel]])
-    op = {"kind": "query", "name": "Q", "vars": vs, "sel": [["field", None, "holder", None, sel], ["field", None, "holderI", None, isel]]}
+    # the same fields once more under the executable directives @include / @skip (aliases j_<kind>_<code>): a directive decides
+    # whether the server sends the field, it is not part of the type expression - the rule applies unchanged
+    vs.append({"name": "cond", "type": NN(T("Boolean")), "default": None})
+    dsel = [["field", "j" + it[2][1:], it[2], " @include(if: $cond)" if i % 2 == 0 else " @skip(if: $cond)", it[4]] for i, it in enumerate(sel)]
+    op = {"kind": "query", "name": "Q", "vars": vs, "sel": [["field", None, "holder", None, sel], ["field", None, "holderI", None, isel], ["field", "directed", "holder", None, dsel]]}
     # a second operation of the same document declares the SAME variable names with other type expressions (the expression 7
     # places further in the enumeration): each operation's Variables follow its own declarations
     vs2 = []
@@ -183,7 +187,7 @@ def main(run):
                 run.violation({"id": "%s-alias-%s" % (fmt, a), "corpus": "clean"}, "alias %s = %s, expected %s" % (a, aliases.get(a), tgt))
             else:
                 run.held()
-        seen = {"f": 0, "v": 0, "i": 0, "o": 0, "g": 0, "h": 0, "w": 0}
+        seen = {"f": 0, "v": 0, "i": 0, "o": 0, "g": 0, "h": 0, "w": 0, "j": 0}
 
         def check(pos, key, ty, one_of=False, second=False):
             m = re.match(r"^([fvioghj])_([a-z]+)_([nlp]+)$", key)
@@ -205,11 +209,13 @@ def main(run):
                 pos = "interface field (all-nullable declaration)"
             elif posc == "h":
                 pos = "object field inside a variant of its interface"
+            elif posc == "j":
+                pos = "response field selected under @include / @skip"
             exp = rule(NN(t) if (one_of and t[0] != "nn") else t)
             shape, basename = strip_base(ty)
             run.evaluated()
             seen[posc] += 1
-            gql = (OUT_KINDS if posc in ("f", "g", "h") else IN_KINDS)[kind]
+            gql = (OUT_KINDS if posc in ("f", "g", "h", "j") else IN_KINDS)[kind]
             if second:
                 key = key + " (second operation)"
             ok = shape == exp
@@ -242,7 +248,7 @@ def main(run):
                     check("@oneOf member", key, v["payload"][0] if v["payload"] else "", one_of=True)
         n_out, n_in = len(OUT_KINDS) * len(exprs), len(IN_KINDS) * len(exprs)
         n_one = len(s.types["One"]["fields"])
-        for posc, want in (("f", n_out), ("v", n_in), ("i", n_in), ("o", n_one), ("g", n_out), ("h", n_out), ("w", n_in)):
+        for posc, want in (("f", n_out), ("v", n_in), ("i", n_in), ("o", n_one), ("g", n_out), ("h", n_out), ("w", n_in), ("j", n_out)):
             run.count("%s:%s" % (fmt, posc), seen[posc])
             if seen[posc] != want:
                 run.violation({"id": "%s-count-%s" % (fmt, posc), "corpus": "clean"}, "expected %d fields at position %s, found %d" % (want, posc, seen[posc]))
